@@ -56,6 +56,7 @@ type Frame struct {
 	paramClosures map[*ssa.Parameter]*closureInfo
 	curCallArgs   []ssa.Value
 	curBindings   []Val
+	finalVals     map[*ssa.Alloc]Val // value of captured variables that are assigned once, at entry (isFinalCell)
 }
 
 // refMatches: d records (as a value, not an address) a reference to the source variable obj / name.
@@ -757,6 +758,12 @@ func (f *Frame) store(t *ssa.Store, st *State) {
 		}
 		g.frameStore(st, "*", p.Comps[0], intLit(cellSize(elemT)), t.Pos(), src)
 		g.storeVal(st, p.Comps[0], v)
+		if a, ok := t.Addr.(*ssa.Alloc); ok && isFinalCell(a) {
+			if f.finalVals == nil {
+				f.finalVals = map[*ssa.Alloc]Val{}
+			}
+			f.finalVals[a] = v
+		}
 		if a, ok := t.Addr.(*ssa.Alloc); ok && isVariableCell(a) {
 			// a local variable's own cell (captured by closures): never an argument of a pure function
 			return
@@ -773,6 +780,55 @@ func hasPtrComps(t types.Type) bool {
 		}
 	}
 	return false
+}
+
+// isFinalCell: a variable cell with exactly one store, in the entry block of its function, whose closures (and
+// theirs) only ever load it. The address of such a variable is held by this function and those closures alone.
+func isFinalCell(a *ssa.Alloc) bool {
+	if !isVariableCell(a) || a.Parent() == nil || len(a.Parent().Blocks) == 0 || a.Block() != a.Parent().Blocks[0] {
+		return false
+	}
+	stores := 0
+	for _, r := range *a.Referrers() {
+		switch u := r.(type) {
+		case *ssa.Store:
+			if u.Addr != ssa.Value(a) || u.Block() != a.Parent().Blocks[0] {
+				return false
+			}
+			stores++
+		case *ssa.MakeClosure:
+			for i, b := range u.Bindings {
+				if b == ssa.Value(a) && !freeVarReadOnly(u.Fn.(*ssa.Function).FreeVars[i], 0) {
+					return false
+				}
+			}
+		}
+	}
+	return stores == 1
+}
+
+func freeVarReadOnly(fv *ssa.FreeVar, depth int) bool {
+	if depth > 8 {
+		return false
+	}
+	for _, r := range *fv.Referrers() {
+		switch u := r.(type) {
+		case *ssa.DebugRef:
+		case *ssa.UnOp:
+			if u.Op != token.MUL {
+				return false
+			}
+		case *ssa.MakeClosure:
+			for i, b := range u.Bindings {
+				if b == ssa.Value(fv) && !freeVarReadOnly(u.Fn.(*ssa.Function).FreeVars[i], depth+1) {
+					return false
+				}
+			}
+		default:
+			return false
+		}
+	}
+	return true
 }
 
 // isVariableCell: an Alloc that only holds a source variable (address used by loads, stores, closure bindings).
@@ -814,6 +870,14 @@ func (f *Frame) load(t *ssa.UnOp, st *State) {
 	if p.Loc != nil {
 		f.set(t, g.loadLeaf(st, p.Loc.Key, p.Loc.Addr, p.Loc.Typ))
 		return
+	}
+	if a, ok := t.X.(*ssa.Alloc); ok {
+		if v, ok := f.finalVals[a]; ok {
+			// a captured variable that is assigned exactly once, in the entry block, and that no closure assigns:
+			// nobody else holds its address, so a call - even one without a contract - cannot have changed it
+			f.set(t, Val{Comps: v.Comps})
+			return
+		}
 	}
 	if !f.nonNil(t.X) {
 		g.oblige(st, "nil", t.Pos(), f.text(t.Pos()), tNot(tEq(p.Comps[0], intLit(0))))
@@ -1543,6 +1607,9 @@ func (f *Frame) varAtEnd(b, header *ssa.BasicBlock, name string, pos token.Pos, 
 				}
 			}
 			if a, ok := v.(*ssa.Alloc); ok {
+				if fv, ok := f.finalVals[a]; ok {
+					return Val{Comps: fv.Comps}, true
+				}
 				av := f.val(a, a.Type())
 				return f.g.loadVal(st, av.Comps[0], a.Type().(*types.Pointer).Elem()), true
 			}
@@ -1626,6 +1693,9 @@ func (f *Frame) varAt(b *ssa.BasicBlock, name string, pos token.Pos, st *State, 
 				continue
 			}
 			if a, ok := in.(*ssa.Alloc); ok {
+				if fv, ok := f.finalVals[a]; ok {
+					return Val{Comps: fv.Comps}, true
+				}
 				av := f.val(a, a.Type())
 				return g.loadVal(st, av.Comps[0], a.Type().(*types.Pointer).Elem()), true
 			}
@@ -1800,6 +1870,9 @@ func staticallyFresh(v ssa.Value, seen map[ssa.Value]bool) bool {
 func (f *Frame) allocOf(cands map[ssa.Value]bool, st *State) (Val, bool) {
 	for v := range cands {
 		if a, ok := v.(*ssa.Alloc); ok {
+			if fv, ok := f.finalVals[a]; ok {
+				return Val{Comps: fv.Comps}, true
+			}
 			if av, ok := f.vals[a]; ok {
 				return f.g.loadVal(st, av.Comps[0], a.Type().(*types.Pointer).Elem()), true
 			}
